@@ -113,7 +113,7 @@ func famRedef(r *rng) []string {
 			"del("+pn+")", obs,
 			fmt.Sprintf("%s = %d", pn, []int{a, other}[r.intn(2)]), obs, obs)
 	}
-	if r.intn(6) == 0 { // (e958f06) a recursive call sees a local function of an OUTER instance of the same function
+	if r.intn(6) == 0 { // (eeea7a1) a recursive call sees a local function of an OUTER instance of the same function
 		base := 1 + r.intn(3)
 		res = append(res, fmt.Sprintf("gq = func(){%d}", base),
 			pickS(r, fmt.Sprintf("func fq(n) { if n == 0 { return gq() }; gq := func(){%d}; fq(n-1) }", base+5),
